@@ -332,6 +332,13 @@ def _satisfy_string(rng, schema):
     return cand
 
 
+DISTINCT_LOOKALIKES = [
+    [[], {}], [{"a": 1}, [["a", 1]]], [[1], [True]], [{"a": 0}, {"a": False}], [0, False], [[[]], [{}]], ["1", 1],
+    [None, "None"], [[1, 2], {"1": 2}], [{"a": 1, "b": 2}, [["a", 1], ["b", 2]]], [[0.0], [False]], ["", []],
+    [{"a": None}, {}], [[None], []], ["a", ["a"]], [{"a": [1]}, {"a": [True]}],
+]
+
+
 def _satisfy_array(rng, schema, root, depth):
     items = schema.get("items", True)
     lo = schema.get("minItems", 0)
@@ -356,6 +363,10 @@ def _satisfy_array(rng, schema, root, depth):
             out[rng.randrange(len(out))] = wanted
         else:
             out.insert(rng.randint(0, len(out)), wanted)
+    if schema.get("uniqueItems") and items in (True, {}) and rng.random() < 0.35 and hi >= len(out) + 2:
+        # distinct JSON values which a sloppy notion of "same" (Python ==, sorted pairs, hashing of frozen
+        # containers, str()) would take for duplicates
+        out += copy.deepcopy(rng.choice(DISTINCT_LOOKALIKES))
     if schema.get("uniqueItems"):
         uniq = []
         for member in out:
